@@ -263,6 +263,12 @@ func (eng *Engine) staticTypeOf(e *CExpr, fn *ssa.Function) (types.Type, error) 
 	switch e.Op {
 	case "id":
 		if fn == nil {
+			if sig := eng.sigHint; sig != nil && len(e.Name) >= 2 && e.Name[0] == 'a' {
+				k := 0
+				if _, err := fmt.Sscanf(e.Name[1:], "%d", &k); err == nil && k < sig.Params().Len() {
+					return sig.Params().At(k).Type(), nil
+				}
+			}
 			if t, err := eng.resolveType(e.Name, nil); err == nil {
 				return t, nil
 			}
@@ -526,7 +532,9 @@ func (eng *Engine) callEffects(c *ssa.CallCommon, s *sorts, res *Effects, walk f
 	// dynamic call through a struct field with an assumed function-value contract
 	if fc := eng.funcFieldContract(c.Value); fc != nil {
 		if fc.HasModifies {
+			eng.sigHint = c.Signature()
 			res.add(eng.modifiesEffects(fc, nil, s))
+			eng.sigHint = nil
 			return
 		}
 	}
@@ -542,6 +550,14 @@ func (eng *Engine) callEffects(c *ssa.CallCommon, s *sorts, res *Effects, walk f
 
 // funcFieldContract: the assumed contract for function values stored in the struct field that v is loaded from
 func (eng *Engine) funcFieldContract(v ssa.Value) *FuncContract {
+	// a value of a named function type with an assumed contract
+	if n, ok := v.Type().(*types.Named); ok && n.Obj().Pkg() != nil {
+		if _, isSig := n.Underlying().(*types.Signature); isSig {
+			if fc, ok := eng.DB.Funcs[n.Obj().Pkg().Path()+".functype:"+n.Obj().Name()]; ok {
+				return fc
+			}
+		}
+	}
 	ld, ok := v.(*ssa.UnOp)
 	if !ok {
 		return nil
@@ -737,6 +753,11 @@ func (eng *Engine) EventEffects(f *ssa.Function) (map[string]bool, bool) {
 			return
 		}
 		visited[fn] = true
+		if fc := eng.ContractOf(fn); fc != nil {
+			if _, trusted := fc.Flags["trusted"]; trusted {
+				return // a trusted contract: the body is not looked at, by declaration
+			}
+		}
 		for _, b := range fn.Blocks {
 			for _, ins := range b.Instrs {
 				ci, ok := ins.(ssa.CallInstruction)
